@@ -104,7 +104,12 @@ def run(ctx):
     quick = ctx.tier == "quick"
     items = tasks(ctx, quick)
     run_items(ctx, items, "neutron")
-    ctx.cov["rule"] = ("seeded compounds over every atom with neutron data (rotating; ions; energy-dependent entries inside, at and beyond "
+    # the tabulated data the equations are evaluated on: the reference reader of the raw neutron tables (the C07 machinery)
+    # checks what every atom serves and every node of the energy tables
+    from . import c07
+    c07.run(ctx)
+    ctx.cov["exhaustive"] = False
+    ctx.cov["rule"] = ("[data leg: Trace_Nsf reader over nsftable / nsftableI / energy tables, every atom and node served] + " +"seeded compounds over every atom with neutron data (rotating; ions; energy-dependent entries inside, at and beyond "
                        "their table range; atoms without data), densities via density= and natural_density=, wavelength scalar / vector / "
                        "energy=; every atom also queried directly; each call is an event carrying the per-atom data served, validated by "
                        "TLC against the documented equations; distinct = events")
